@@ -349,9 +349,15 @@ func (tree *Rtree) Delete(obj geom.Geom) bool {
 	tree.condenseTree(n)
 	tree.size--
 
-	if !tree.root.leaf && len(tree.root.entries) == 1 {
+	// Shorten the tree while the root is an internal node with a single child.
+	for !tree.root.leaf && len(tree.root.entries) == 1 {
 		tree.root = tree.root.entries[0].child
 		tree.height--
+	}
+	if !tree.root.leaf && len(tree.root.entries) == 0 {
+		// The last object below an internal root was removed.
+		tree.root = &node{leaf: true, level: 1, entries: make([]entry, 0, tree.MaxChildren)}
+		tree.height = 1
 	}
 
 	return true
